@@ -157,6 +157,7 @@ fn run_plain<K: SimKey>(case: &Case) -> Outcome {
     sim.keep_trace = case.workload.ops.iter().any(|o| matches!(o, crate::gen::Op::ReopenWrongN { .. } | crate::gen::Op::ReopenWrongVersion { .. }));
     interpose::install(sim);
     let mut w = World::<K>::new(&base, &case.workload);
+    w.own = case.property.clone();
     if case.workload.cfg.n == 1 {
         w.probes.n_is_1 += 1;
     }
@@ -181,6 +182,7 @@ fn run_plain<K: SimKey>(case: &Case) -> Outcome {
     if let Err(f) = r {
         out.violation = Some(f);
     }
+    out.foreign = w.foreign.borrow_mut().take();
     finish_sim(&mut out, &mut sim, &base, true);
     remove_dir(&base);
     let _ = fail;
